@@ -679,6 +679,8 @@ package tabular
 //@   ensures [registered-precell] result == nil && when == 1 ==> grewBy(heap[callbackSet.preCellRenderTime][fldloc(setLoc(effOwner(tb, owner), target), 1)], old(heap[callbackSet.preCellRenderTime][fldloc(setLoc(effOwner(tb, owner), target), 1)]), heap[[]PropertyCallback], old(heap[[]PropertyCallback]), theNewCallback) @C13
 //@   ensures [registered-render] result == nil && when == 2 ==> grewBy(heap[callbackSet.renderTime][fldloc(setLoc(effOwner(tb, owner), target), 2)], old(heap[callbackSet.renderTime][fldloc(setLoc(effOwner(tb, owner), target), 2)]), heap[[]PropertyCallback], old(heap[[]PropertyCallback]), theNewCallback) @C13
 //@   ensures [registered-postcell] result == nil && when == 3 ==> grewBy(heap[callbackSet.postCellRenderTime][fldloc(setLoc(effOwner(tb, owner), target), 3)], old(heap[callbackSet.postCellRenderTime][fldloc(setLoc(effOwner(tb, owner), target), 3)]), heap[[]PropertyCallback], old(heap[[]PropertyCallback]), theNewCallback) @C13
+//@   ensures [other-callbacks-kept-or-the-new-one] forall l Loc :: {heap[[]PropertyCallback][l]} l.base < old(alloc) ==> heap[[]PropertyCallback][l] === old(heap[[]PropertyCallback])[l] || heap[[]PropertyCallback][l] === theNewCallback @C10
+//@   ensures [table-still-wellformed] theNewCallback != nil && dyn(effOwner(tb, owner)) == type[*ATable] && effOwner(tb, owner).(*ATable) == tb && old(WF(tb) && propsOK(tb)) ==> WF(tb) && propsOK(tb) @C10,C14
 //@   ensures [refused-changes-nothing] result != nil ==> heap[callbackSet.addTime] === old(heap[callbackSet.addTime]) && heap[callbackSet.renderTime] === old(heap[callbackSet.renderTime]) && heap[callbackSet.preCellRenderTime] === old(heap[callbackSet.preCellRenderTime]) && heap[callbackSet.postCellRenderTime] === old(heap[callbackSet.postCellRenderTime]) @C13
 
 //@ -- ---------------------------------------------------------------------
